@@ -14,6 +14,9 @@ SCRATCH = os.environ.get('VERIF_BX_SRC', '/var/tmp/vx-bx-src')
 TARGET = os.path.join(VERIF, '.cache', 'bx-target')
 CRATES = {'plonky2': ('plonky2', 'plonky2'), 'field': ('field', 'plonky2_field'), 'util': ('util', 'plonky2_util'), 'starky': ('starky', 'starky')}
 MOD_LINE = '\n#[cfg(test)]\nmod vx_harness;\n'
+# SIMD build variants of a crate ('field@avx2'): same sources, same harness, other target features, own target directory
+VARIANTS = {'avx2': ('-C target-feature=+avx2', ['avx2']),
+            'avx512': ('-C target-feature=+avx2,+avx512f,+avx512bw,+avx512cd,+avx512dq,+avx512vl', ['avx2', 'avx512f', 'avx512bw', 'avx512cd', 'avx512dq', 'avx512vl'])}
 
 
 def _write_if_changed(path, text):
@@ -25,7 +28,8 @@ def _write_if_changed(path, text):
     open(path, 'w').write(text)
 
 
-def prepare():
+def prepare(target=None):
+    target = target or TARGET
     os.makedirs(SCRATCH, exist_ok=True)
     excl = ['--exclude', 'target', '--exclude', '.git']
     for d, _ in CRATES.values():
@@ -39,7 +43,7 @@ def prepare():
             _write_if_changed(os.path.join(SCRATCH, d, 'src', 'lib.rs'), lib + MOD_LINE)
         else:
             _write_if_changed(os.path.join(SCRATCH, d, 'src', 'lib.rs'), lib)
-    _force_rebuild_of_changed_crates()
+    _force_rebuild_of_changed_crates(target)
 
 
 def _tree_hash(root, extra):
@@ -56,7 +60,7 @@ def _tree_hash(root, extra):
     return h.hexdigest()
 
 
-def _force_rebuild_of_changed_crates():
+def _force_rebuild_of_changed_crates(TARGET):
     """cargo decides freshness by mtime.  A tree that goes back to an OLDER state (a reverted change whose files carry their old mtimes)
     would otherwise be tested with the stale binary of the newer state.  The content hash of every workspace member is compared with the one
     recorded at the last run; on any difference the member's lib.rs is touched so that cargo rebuilds it (and its dependents)."""
@@ -80,7 +84,18 @@ def _force_rebuild_of_changed_crates():
 
 def run(crate_key, prefixes, timeout=3000):
     """-> list of dict(test, status ok|failed|harness-error, cases, failures=[...], wall)"""
+    crate_key, _, variant = crate_key.partition('@')
     d, pkg = CRATES[crate_key]
+    target, rustflags = TARGET, None
+    if variant:
+        rustflags, need = VARIANTS[variant]
+        target = TARGET + '-' + variant
+        try:
+            have = set(re.search(r'^flags\s*:(.*)$', open('/proc/cpuinfo').read(), re.M).group(1).split())
+        except (OSError, AttributeError):
+            have = set()
+        if not set(need) <= have:
+            return [dict(test='*', status='skipped', cases=0, failures=[], note='this CPU lacks %s: the %s build variant cannot be executed here' % (sorted(set(need) - have), variant), wall=0.0)]
     hfile = os.path.join(VERIF, 'harness', crate_key, 'vx_harness.rs')
     if not os.path.exists(hfile):
         return []
@@ -92,9 +107,11 @@ def run(crate_key, prefixes, timeout=3000):
     fcntl.flock(lock, fcntl.LOCK_EX)
     t0 = time.time()
     try:
-        prepare()
-        env = dict(os.environ, CARGO_NET_OFFLINE='true', CARGO_TARGET_DIR=TARGET, RUST_BACKTRACE='0',
+        prepare(target)
+        env = dict(os.environ, CARGO_NET_OFFLINE='true', CARGO_TARGET_DIR=target, RUST_BACKTRACE='0',
                    VERIF_SEED=os.environ.get('VERIF_SEED', '0') or '0')
+        if rustflags:
+            env['RUSTFLAGS'] = rustflags
         results = []
         filt = ['vx_harness::' + p for p in prefixes]
         feats = []
